@@ -4,6 +4,7 @@ import InTotoModel.Model.Utf8
 import InTotoModel.Driver.JsonProto
 import InTotoModel.Model.Signed
 import InTotoModel.Model.JsonParse
+import InTotoModel.Model.Threshold
 /-
   Executable model driver: one operation per input line, one canonical answer per line.
   Unknown or malformed operations answer `bad-op` (never a default).
@@ -49,6 +50,25 @@ def step (line : String) : String :=
       | some v => "ok " ++ showJV v
       | none => "none"
     | none => "bad-op"
+  | "vblock" :: t :: rest =>
+    -- vblock <t> A <kid>* S <kid>:<0|1>*   (kid = hex label; 1 = the value verifies under the key with that id)
+    match t.toNat? with
+    | none => "bad-op"
+    | some t =>
+      match rest with
+      | "A" :: rest =>
+        let auth := (rest.takeWhile (· != "S")).map (·.toList)
+        let sg := (rest.dropWhile (· != "S")).drop 1
+        let sigs : List Sig := sg.map fun e =>
+          match e.splitOn ":" with
+          | [k, "1"] => { kid := k.toList, val := [1] }
+          | [k, _] => { kid := k.toList, val := [0] }
+          | _ => { kid := [], val := [0] }
+        match Threshold.verifySigs (K := Str) id (fun _ v => v == [1]) id sigs t auth with
+        | .ok () => "ok"
+        | .err _ => "err"
+        | .panic n => s!"panic {n}"
+      | _ => "bad-op"
   | _ => "bad-op"
 
 partial def loop (h : IO.FS.Stream) (out : IO.FS.Stream) : IO Unit := do
